@@ -204,6 +204,11 @@ impl Gen {
     }
 
     fn batch(&mut self) -> Vec<usize> {
+        // "heartbeat" batches: runs of empty payloads (records that occupy no payload bytes)
+        if self.rng.chance(1, 40) {
+            let n = self.rng.usize(2, 40);
+            return vec![0; n];
+        }
         let n = match self.rng.below(100) {
             0..=1 => 0,
             2..=61 => 1,
